@@ -39,6 +39,7 @@ class Task:
         self.aff = '0'
         self.flows = []
         self.prio = None
+        self.epilogue = None        # C statement appended to the body (e.g. the user trigger)
     def param(self, name, lo, hi, step=None):
         self.defs.append(('param', name, lo, hi, step)); return self
     def local(self, name, expr):
@@ -55,6 +56,7 @@ class Task:
 class Prog:
     def __init__(self, name, globals_):
         self.name, self.globals, self.tasks = name, globals_, []
+        self.termdet = None         # None | "user-triggered"
     def task(self, name):
         t = Task(name); self.tasks.append(t); return t
     def tindex(self, name): return [t.name for t in self.tasks].index(name)
@@ -84,6 +86,7 @@ def emit_jdf(p):
     o.append('int ptgh_body(int rank, int tpid, int cls, const int *params, void **data);')
     o.append('%}')
     o.append('')
+    if p.termdet: o.append('%%option termdet = "%s"\n' % p.termdet)
     o.append('A          [type = "parsec_data_collection_t*"]')
     o.append('TPID       [type = int]')
     for g in p.globals: o.append('%-10s [type = int]' % g)
@@ -118,6 +121,7 @@ def emit_jdf(p):
         o.append("    int _p[] = {%s};" % (", ".join(t.params) if t.params else "0"))
         o.append("    void *_d[] = {%s};" % (", ".join((f.name if f.kind != 'CTL' else "NULL") for f in t.flows) if t.flows else "NULL"))
         o.append("    if( ptgh_body(this_task->taskpool->context->my_rank, TPID, %d, _p, _d) ) return PARSEC_HOOK_RETURN_AGAIN;" % ci)
+        if t.epilogue: o.append("    " + t.epilogue)
         o.append("}")
         o.append("END")
         o.append('')
@@ -203,7 +207,8 @@ def emit_ref(p):
     for t in p.tasks:
         kinds = ", ".join({"RW": "PTG_RW", "READ": "PTG_READ", "WRITE": "PTG_WRITE", "CTL": "PTG_CTL"}[f.kind] for f in t.flows) or "0"
         names = ", ".join('"%s"' % f.name for f in t.flows) or '""'
-        o.append('    {"%s", %d, %d, {%s}, {%s}, enum_%s, deps_%s},' % (t.name, len(t.params), len(t.flows), kinds, names, t.name, t.name))
+        ppos = ", ".join(str(i) for i, d in enumerate(t.defs) if d[0] == 'param') or "0"
+        o.append('    {"%s", %d, %d, {%s}, {%s}, enum_%s, deps_%s, {%s}},' % (t.name, len(t.params), len(t.flows), kinds, names, t.name, t.name, ppos))
     o.append("};")
     o.append('const ptg_ref_t PTG_REF = {"%s", %d, {%s}, %d, classes};' % (p.name, len(p.globals), ", ".join('"%s"' % g for g in p.globals), len(p.tasks)))
     return "\n".join(o) + "\n"
@@ -347,6 +352,35 @@ reg(prog_gather, prog_gather_fix)
 reg(prog_steps)
 reg(prog_newnull)
 reg(prog_startup)
+
+def prog_mcast():
+    """one producer, three outputs with differing / overlapping destination rank sets (C13)"""
+    p = Prog("mcast", ["N", "M", "S"])
+    s = p.task("SRC").param("k", "0", "N-1").affinity("k")
+    s.flow("W1", "WRITE").inp(New()).out(TaskRef("R1", "X", ["k", ("range", "0", "M-1")]))
+    s.flow("W2", "WRITE").inp(New()).out(TaskRef("R2", "X", ["k", ("range", "0", "M-1", "S")]))
+    s.flow("W3", "WRITE").inp(New()).out(TaskRef("R3", "X", ["k"]))
+    a = p.task("R1").param("k", "0", "N-1").param("j", "0", "M-1").affinity("k + j")
+    a.flow("X", "READ").inp(TaskRef("SRC", "W1", ["k"]))
+    b = p.task("R2").param("k", "0", "N-1").param("j", "0", "M-1", "S").affinity("k + 2*j + 1")
+    b.flow("X", "READ").inp(TaskRef("SRC", "W2", ["k"]))
+    c = p.task("R3").param("k", "0", "N-1").affinity("k + M")
+    c.flow("X", "READ").inp(TaskRef("SRC", "W3", ["k"]))
+    return p
+reg(prog_mcast)
+
+def prog_utt():
+    """user-triggered termination: the last task, placed on the root chosen by global R, triggers it"""
+    p = Prog("utt", ["N", "R"])
+    p.termdet = "user-triggered"
+    w = p.task("WORK").param("k", "0", "N-1").affinity("k")
+    w.flow("D", "READ").inp(Coll("k"))
+    w.flow("C", "CTL").out(TaskRef("FIN", "C", ["0"]))
+    f = p.task("FIN").param("z", "0", "0").affinity("R")
+    f.flow("C", "CTL").inp(TaskRef("WORK", "C", [("range", "0", "N-1")]))
+    f.epilogue = "this_task->taskpool->tdm.module->taskpool_set_nb_tasks(this_task->taskpool, 0);"
+    return p
+reg(prog_utt)
 
 if __name__ == "__main__":
     if len(sys.argv) < 3:
